@@ -64,7 +64,11 @@ def gen_cases(rng, tier):
     cases.append({"sources": [{"arg": "big.bin", "content": {"rand": 7, "len": 19809}}], "verbose": False, "archive": "t.k7"})
     cases.append({"sources": [{"arg": "a.bas", "content": {"pat": "0101013c5a", "len": 254}}, {"arg": "b.bas,a", "content": {"hex": ""}},
                               {"arg": "c", "content": {"pat": "0101013c5aff0200", "len": 509}}], "verbose": True, "archive": "t.k7"})
-    return cases, {"random": n, "tape filled to within 0..130 bytes of its capacity": nf, "fixed": 2}
+    # pairwise distinct 8.3 names whose letters coincide once the dot is removed, or that differ by the dot's place only
+    fam = ["AB.C", "A.BC", "abc", "x1.bas", "X.1BA", "x1b.as", "ABCDEFGH.IJ", "ABCDEFG.HIJ", "a.b", "ab"]
+    cases.append({"sources": [{"arg": a, "content": {"pat": "%02x" % (65 + k), "len": 10 + 254 * (k % 3)}} for k, a in enumerate(fam)], "verbose": False, "archive": "t.k7"})
+    cases.append({"sources": [{"arg": a, "content": {"rand": k, "len": 5 * k}} for k, a in enumerate(reversed(fam))], "verbose": True, "archive": "o+/t.k7"})
+    return cases, {"random": n, "tape filled to within 0..130 bytes of its capacity": nf, "fixed": 4}
 
 
 def arch_path(case, cd):
